@@ -403,6 +403,9 @@ func getRecordsByType(ctx, tokenId, name, typ) (r)
 func GetRecords(name, typ) (r)
   pure
   requires [Pre] typed(store, rprefix(tokenOf(store, name), name, typ), typ)
+  // records of a sub-name live under the longest registered enclosing name: they are readable although the names between
+  // the two are not registered (documented success stays reachable)
+  cover [C12] tokenOf(store, name) != name && len(split(name, ".")) > 2 && !store.has(nkey(sfx(split(name, "."), 1)))
   ensures [C12] len(split(name, ".")) > 1
   ensures [C12] len(r) == cnt(store, rprefix(tokenOf(store, name), name, typ))
   ensures [C12] forall j Int {r[j]} :: 0 <= j && j < len(r) ==> r[j] == recAtP(store, rprefix(tokenOf(store, name), name, typ), j).Data
@@ -422,6 +425,7 @@ func DeleteRecords(name, typ)
 
 // getAllRecords walks every record of the name (all types) stored under the name that holds them, while that name is unexpired
 func GetAllRecords(name) (r)
+  cover [C12] tokenOf(store, name) != name && len(split(name, ".")) > 2 && !store.has(nkey(sfx(split(name, "."), 1)))
   ensures [C12] len(split(name, ".")) > 1 && r.prefix == aprefix(tokenOf(old(store), name), name) && r.opts == 12 && r.pos == 0 && r.store == old(store)
   ensures [C12] store == old(store) && notifs == old(notifs)
   ensures [C12] store.has(nkey(tokenOf(store, name))) && now < rec(store, tokenOf(store, name)).Expiration
@@ -520,10 +524,23 @@ func (n NameState) ensureNotExpired()
   pure
   ensures now < n.Expiration
 
+// sfx(f, i): the name formed by the labels i, i+1, ... of f joined with dots (definition by recursion); a name is
+// usable while it is registered and unexpired
+pure okName(s Store, n Bytes) Bool = s.has(nkey(n)) && now < rec(s, n).Expiration
+ufun sfx(f L_NB, i Int) Bytes
+axiom sfxDef: forall f L_NB, i Int {sfx(f, i)} :: 0 <= i && i < len(f) ==> sfx(f, i) == (i == len(f) - 1 ? f[i] : f[i] ++ "." ++ sfx(f, i + 1))
+
+// true iff some name on the chain fragments[first..] is missing or expired
 func parentExpired(ctx, first, fragments) (r)
   pure
+  requires len(fragments) >= 1 && 0 <= first
+  ensures !r ==> forall j Int {sfx(fragments, j)} :: first <= j && j < len(fragments) ==> okName(store, sfx(fragments, j))
   loop 0
-    invariant true
+    invariant last == len(fragments) - 1 && i <= last && now == entry(now)
+    invariant (i == last ==> name == fragments[last]) && (i < last ==> name == sfx(fragments, i + 1))
+    invariant i >= 0 && i == last ==> sfx(fragments, i) == name
+    invariant i >= 0 && i < last ==> sfx(fragments, i) == fragments[i] ++ "." ++ name
+    invariant forall j Int {sfx(fragments, j)} :: i < j && j <= last ==> okName(store, sfx(fragments, j))
 
 func getNameStateWithKey(ctx, tokenKey) (r)
   pure
@@ -532,6 +549,9 @@ func getNameStateWithKey(ctx, tokenKey) (r)
 func getFragmentedNameState(ctx, tokenID, fragments) (r)
   pure
   ensures store.has(nkey(tokenID)) && r == rec(store, tokenID) && now < r.Expiration
+  // it answers only if every name on the given path (by default: the path of the token itself) above the first label is usable
+  ensures len(fragments) > 0 ==> forall j Int {sfx(fragments, j)} :: 1 <= j && j < len(fragments) ==> okName(store, sfx(fragments, j))
+  ensures len(fragments) == 0 ==> forall j Int {sfx(split(tokenID, "."), j)} :: 1 <= j && j < len(split(tokenID, ".")) ==> okName(store, sfx(split(tokenID, "."), j))
 
 func getNameState(ctx, tokenID) (r)
   pure
